@@ -247,6 +247,9 @@ def run(p: Program, rep: Report, tier: str) -> None:
     # R12.2 positive controls
     for exc, owner, text in POSITIVE_CONTROLS:
         hit = [c for (e, c) in ea.caught if e == exc and owner in c and text in c]
+        if not hit:
+            # the handled statement may have moved into a helper / another module: the same operation, handled, anywhere
+            hit = [c for (e, c) in ea.caught if e == exc and text in c]
         if hit:
             rep.ok("R12.2", f"handled site recognised: {hit[0]} ({exc} caught)")
         else:
